@@ -255,16 +255,18 @@ class Sched:
         c.go.release()
 
     def _swap_domain(self, old: int, new: int):
-        """Per-virtual-process global RNG state (torch default generator, python `random`)."""
+        """Per-virtual-process global RNG state (torch default generator, python `random`, numpy's global RNG)."""
         if old == new:
             return
         try:
             import torch
-            self.dom_rng[old] = (torch.get_rng_state(), random.getstate())
+            import numpy as np
+            self.dom_rng[old] = (torch.get_rng_state(), random.getstate(), np.random.get_state())
             st = self.dom_rng.get(new)
             if st is not None:
                 torch.set_rng_state(st[0])
                 random.setstate(st[1])
+                np.random.set_state(st[2])
         except Exception:
             pass
 
